@@ -23,12 +23,12 @@ def gen(rng, tier):
     for i in range(n):
         a, b = rng.sample(ENC, 2)
         fa, fb = rng.random() < 0.5, rng.random() < 0.5
-        msgs = [iu.dict_text(iu.rand_message(rng, pk, a, nbits=rng.choice([1, 3, 8, 20]))) for _ in range(rng.choice([1, 2, 5, 12]))]
+        msgs = [iu.dict_text(iu.rand_message_fit(rng, pk, a, nbits=rng.choice([1, 3, 8, 20]))) for _ in range(rng.choice([1, 2, 5, 12]))]
         via = ['func', 'cli', 'mideu'][i % 3]
         if via == 'mideu':
             a, b = rng.choice([('cp500', 'latin_1'), ('latin_1', 'cp500')])
             fb = fa
-            msgs = [iu.dict_text(iu.rand_message(rng, pk, a, nbits=rng.choice([1, 3, 8, 20]))) for _ in range(rng.choice([1, 2, 5]))]
+            msgs = [iu.dict_text(iu.rand_message_fit(rng, pk, a, nbits=rng.choice([1, 3, 8, 20]))) for _ in range(rng.choice([1, 2, 5]))]
         cases.append({'kind': 'ipm', 'via': via, 'a': a, 'b': b, 'fa': fa, 'fb': fb, 'msgs': msgs})
     for i in range(n):
         a, b = rng.sample(ENC, 2)
